@@ -183,7 +183,7 @@ var baseTable = FunctionTable{
 		0,
 		false,
 	},
-	"convertToDateTime": Function{
+	"convertsToDateTime": Function{
 		impl.ConvertsToDateTime,
 		0,
 		0,
@@ -202,7 +202,7 @@ var baseTable = FunctionTable{
 		false,
 	},
 	"toQuantity": Function{
-		impl.ToInteger,
+		impl.ToQuantity,
 		0,
 		1,
 		false,
@@ -341,20 +341,20 @@ var baseTable = FunctionTable{
 	},
 	"log": Function{
 		impl.Log,
-		0,
-		0,
+		1,
+		1,
 		false,
 	},
 	"power": Function{
 		impl.Power,
-		0,
-		0,
+		1,
+		1,
 		false,
 	},
 	"round": Function{
 		impl.Round,
 		0,
-		0,
+		1,
 		false,
 	},
 	"sqrt": Function{
